@@ -1727,6 +1727,13 @@ func (s *rs_sim) runScript(path string) {
 	sc := bufio.NewScanner(f)
 	sc.Buffer(make([]byte, 1<<20), 1<<20)
 	s.phase = "script"
+	// the model's initial state is the bootstrapped group: initial configuration entries
+	// persisted and applied on every replica
+	for _, id := range s.ids {
+		if r := s.reps[id]; s.live(r) {
+			s.drain(r)
+		}
+	}
 	for sc.Scan() {
 		var op rs_scriptOp
 		if json.Unmarshal(sc.Bytes(), &op) != nil || op.Op == "" {
@@ -1738,6 +1745,7 @@ func (s *rs_sim) runScript(path string) {
 		if !s.scriptStep(op) {
 			s.diverged++
 			s.inc("script_diverged_ops")
+			s.inc("script_div_" + op.Op + "_" + op.T)
 		} else {
 			s.scripted++
 		}
@@ -1769,6 +1777,18 @@ func (s *rs_sim) scriptStep(op rs_scriptOp) bool {
 	}
 	if !s.live(r) {
 		return false
+	}
+	switch op.Op {
+	case "campaign", "tick", "propose", "proposeconf", "transfer", "deliver", "dupdeliver":
+		// an input for a replica that still has a Ready outstanding (the real replica produced
+		// one where the model's did not, e.g. re-applied entries after a restart): complete it
+		// first - the script only steers
+		if r.rd != nil {
+			s.finishReady(r)
+			if !s.live(r) {
+				return false
+			}
+		}
 	}
 	idle := r.rd == nil
 	switch op.Op {
